@@ -121,15 +121,26 @@ Fixpoint parse_go (ts : list token) (stack : list frame) (top : list node) : opt
       end
   end.
 
-(* NumVariants: Go int arithmetic (int64 on amd64) *)
-Definition wrap_i64 (z : Z) : Z := ((z + 9223372036854775808) mod 18446744073709551616 - 9223372036854775808)%Z.
+(* NumVariants: Go int arithmetic (int64 on amd64), saturating at math.MaxInt since /repo commit 1160e46:
+   seq: `if v != 0 && num > math.MaxInt/v { return math.MaxInt }; num *= v`, starting from 1, left to right;
+   alt: `if num > math.MaxInt-v { return math.MaxInt }; num += v`, starting from 0 *)
+Definition max_int : Z := 9223372036854775807%Z.
 Fixpoint num_variants64 (n : node) : Z :=
   match n with
   | Lit _ => 1%Z
-  | Seq l => (fix go (l : list node) : Z := match l with [] => 1%Z | x :: r => wrap_i64 (num_variants64 x * go r) end) l
-  | Alt l => (fix go (l : list node) : Z := match l with [] => 0%Z | x :: r => wrap_i64 (num_variants64 x + go r) end) l
+  | Seq l => (fix go (l : list node) (num : Z) : Z :=
+                match l with
+                | [] => num
+                | x :: r => let v := num_variants64 x in
+                            if negb (v =? 0)%Z && (max_int / v <? num)%Z then max_int else go r (num * v)%Z
+                end) l 1%Z
+  | Alt l => (fix go (l : list node) (num : Z) : Z :=
+                match l with
+                | [] => num
+                | x :: r => let v := num_variants64 x in
+                            if (max_int - v <? num)%Z then max_int else go r (num + v)%Z
+                end) l 0%Z
   end.
-(* Go multiplies / adds left to right starting from 1 / 0; modulo 2^64 the result does not depend on the association *)
 
 (* the mathematical count *)
 Fixpoint num_variants (n : node) : N :=
